@@ -258,10 +258,10 @@ func BuildSelect(query *Query, slct *sqlparser.Select) error {
 }
 
 func BuildUnion(query *Query, expr *sqlparser.Union) error {
-	leftStatement := expr.Left.(*sqlparser.Select)
-	leftStatement.With = expr.With
-	rightStatement := expr.Right.(*sqlparser.Select)
-	rightStatement.With = expr.With
+	leftStatement := expr.Left
+	leftStatement.SetWith(expr.With)
+	rightStatement := expr.Right
+	rightStatement.SetWith(expr.With)
 	left, err := Prepare(query.data, leftStatement, query.options)
 	if err != nil {
 		return err
@@ -292,7 +292,8 @@ func BuildUnion(query *Query, expr *sqlparser.Union) error {
 	slice = append(slice, rightDataArray...)
 	query.from = slice
 	query.selectDefinition = sqlparser.SelectExprs{}
-	query.selectDefinition.Exprs = make([]sqlparser.SelectExpr, 0)
+	query.selectDefinition.Exprs = []sqlparser.SelectExpr{&sqlparser.StarExpr{}}
+	query.distinct = expr.Distinct
 	err = BuildLimit(query, expr.Limit)
 	if err != nil {
 		return err
